@@ -243,13 +243,22 @@ def oracle_crash(sp, ref, rng):
 
 
 def ks_case(args):
-    """args = (seed, i, oracles): oracles is a subset of {"basic", "audit", "determinism", "rerun", "crash"}"""
+    """args = (seed, i, oracles): oracles is a subset of {"basic", "audit", "determinism", "rerun", "crash", "race"}"""
     seed, i, oracles = args
     rng = random.Random(seed * 982451653 + i)
     # crash oracle: single-output tasks only -- a kill that falls between the renames of one task is finding D2 (C03), and the
     # kill at a hook point of one task can fall there for another task
     sp = gen_ks(rng, allow_runto=("crash" not in oracles), allow_components=("crash" not in oracles), multi_out=("crash" not in oracles))
-    sc, ref = fresh_run(sp)
+    if "race" in oracles:
+        # a race-detector build; in half of the runs the hooks are inactive (they take no lock then and cannot hide a race)
+        sc, ref = fresh_run(sp, binary="wfrun_race", timeout=120, env={"GORACE": "halt_on_error=0 exitcode=66"}, hooks_on=(rng.random() < 0.5))
+        if "DATA RACE" in ref["stderr"] or ref["rc"] == 66:
+            i0 = ref["stderr"].find("WARNING: DATA RACE")
+            sc.close()
+            return {"spec": sp.text(), "bufsize": sp.bufsize, "problems": [("data-race", "the Go race detector reports a data race: " + ref["stderr"][i0:i0 + 1500])], "ntasks": len(sp.nodes),
+                    "rc": ref["rc"], "stderr": ref["stderr"][-200:], "yield": None, "wall": ref["wall"], "kind": "kitchen-sink", "features": sp.ks_features}
+    else:
+        sc, ref = fresh_run(sp)
     try:
         problems = oracle_basic(sp, ref)
         if not problems:
